@@ -1,7 +1,7 @@
 (* EquivTac.v -- symbolic evaluation of a translated body in the machine world, and the case analysis
    that compares it with a hand-written Machine function. *)
 From Coq Require Import ZArith List String Bool Lia.
-From MV Require Import Ast Eval Scalar Machine Equiv Prims.
+From MV Require Import Ast Eval Scalar Machine EquivDefs Prims.
 Import ListNotations.
 Open Scope string_scope.
 Open Scope Z_scope.
